@@ -299,8 +299,9 @@ def gangOK (s : Core) : Option String :=
       else if a.live && a.state == "Completing" && i.bound && !i.ph && i.tg != "" then some s!"swapped-real-on-completing-application {i.key}"
       -- Resuming is the short wait of a Soft application for its placeholders to go: a real allocation (also the real half
       -- of a swap confirmed meanwhile) moves it on to Accepted; one that the timeout itself asked back (released, waiting for the
-      -- shim) may still be there
-      else if a.live && a.state == "Resuming" && i.bound && !i.ph && !i.released then some s!"real-allocation-on-resuming-application {i.key}"
+      -- shim) may still be there, and while another placeholder is still bound the application waits in Resuming for it
+      else if a.live && a.state == "Resuming" && i.bound && !i.ph && !i.released && !a.items.any (fun x => x.bound && x.ph) then
+        some s!"real-allocation-on-resuming-application {i.key}"
       -- the real half of a swap in flight waits for the confirmation of a placeholder that is still bound
       else if i.inflightReal then
         match i.release.bind (fun pk => a.items.find? (·.key == pk)) with
